@@ -255,3 +255,49 @@ for _k in ATTR_SRCS:
                       f'carrier {ATTR_SRCS[_k]!r}; attribute assignment node.<primitive field> = value for every (node, primitive field) pair (symbolic ordinal) and a symbolic choice among '
                       f'{len(ATTR_VALUES)} constant values / 2 identifiers / levels 0..2 / kinds; the source must parse (CPython) to the live tree incl. positions',
                       tier='quick', budget=600, per_path=60, out='values which have no literal form (inf, nan, negative and complex numbers)', reset=pc.reset_globals))
+
+
+# ---------------------------------------------------------------------------------------------------------------- P4
+# trees parsed with type_comments=True: Module.type_ignores carry a line number which every line-count-changing edit has to keep in step
+TI_SRC = 'x = (1,\n     2)\ny = 2  # type: ignore\nz = [3,\n     4]  # type: ignore[misc]\nw = 5\n'
+
+
+def p4_type_ignores(op: int, i: int):
+    assume(0 <= op <= 3)
+    o = pc.pin(op, 0, 3)
+    with pc.untraced():
+        root = FST(TI_SRC, 'exec', type_comments=True)
+        pc.reset_globals()
+        n = len(root.a.body)
+    try:
+        if o == 0:
+            root.body.insert('q = 0', i)
+        elif o == 1:
+            assume(-n <= i < n)
+            root.body[pc.pin(i, -n, n - 1)].remove()
+        elif o == 2:
+            assume(-n <= i < n)
+            root.body[pc.pin(i, -n, n - 1)].replace('r = (7,\n     8,\n     9)')
+        else:
+            assume(0 <= i <= 1)
+            root.body[0].value.put_src(' ' if pc.pin(i, 0, 1) else '\n\n ', 0, 7, 1, 5, 'offset')
+    except pc.EXPECTED_RAISES:
+        cover('raise')
+        return
+    with pc.untraced():
+        src = pc.R(root.src)
+        try:
+            t = ast.parse(src, type_comments=True)
+        except SyntaxError as e:
+            pc.fail('type_ignores.src_unparsable', (src, str(e)))
+        pc.realize_tree(root.a)
+        got = [(ti.lineno, ti.tag) for ti in root.a.type_ignores]
+        exp = [(ti.lineno, ti.tag) for ti in t.type_ignores]
+        check(got == exp, 'type_ignores.line_numbers_differ_from_parse_after_edit', (('insert', 'remove', 'replace', 'offset')[o], pc.R(i), got, exp))
+        check(ast.dump(root.a) == ast.dump(t), 'type_ignores.tree_structure_differs_from_parse', (src,))
+    cover('ok')
+
+
+CELLS.append(Cell('P4.type_ignores', p4_type_ignores, 'P', ['fst.fst_core._put_src', 'fst.fst_core._offset'],
+                  'a module parsed with type_comments=True (two "# type: ignore" comments); insert / remove / replace of a statement at a symbolic index, or an offset-mode splice joining / splitting lines: '
+                  'Module.type_ignores (line number, tag) must equal those of ast.parse(src, type_comments=True)', tier='quick', budget=300, per_path=60, reset=pc.reset_globals))
